@@ -148,36 +148,53 @@ func checkC06(c *Ctx) {
 	}
 	// serve: conn.Close and unregistering are deferred
 	var closesConn, unregisters, registers bool
-	for _, f := range withAnon(serve) {
-		deferred := false
-		allInstrs(serve, func(i ssa.Instruction) {
-			if d, ok := i.(*ssa.Defer); ok {
-				if mc, ok := d.Call.Value.(*ssa.MakeClosure); ok && mc.Fn == f {
-					deferred = true
-				}
+	// the deferred region of serve: deferred closures and deferred calls, with
+	// the module functions they call statically (helpers such as an
+	// "untrackConn" wrapper); the body region: serve and its non-deferred
+	// static callees
+	var deferredRoots, bodyRoots []*ssa.Function
+	bodyRoots = append(bodyRoots, serve)
+	allInstrs(serve, func(i ssa.Instruction) {
+		switch x := i.(type) {
+		case *ssa.Defer:
+			if mc, ok := x.Call.Value.(*ssa.MakeClosure); ok {
+				deferredRoots = append(deferredRoots, mc.Fn.(*ssa.Function))
+			} else if cal := staticCallee(x); cal != nil && inModule(cal) {
+				deferredRoots = append(deferredRoots, cal)
 			}
-		})
-		allInstrs(f, func(i ssa.Instruction) {
-			switch x := i.(type) {
-			case ssa.CallInstruction:
-				cc := x.Common()
-				if cc.IsInvoke() && cc.Method.Name() == "Close" {
-					if r, ok := loadedField(cc.Value); ok && r.is("Conn", "conn") && deferred {
-						closesConn = true
+		case *ssa.Call:
+			if cal := staticCallee(x); cal != nil && inModule(cal) && cal.Blocks != nil {
+				bodyRoots = append(bodyRoots, cal)
+			}
+		}
+	})
+	scan := func(roots []*ssa.Function, deferred bool) {
+		for f := range staticReach(roots, 3) {
+			allInstrs(f, func(i ssa.Instruction) {
+				switch x := i.(type) {
+				case ssa.CallInstruction:
+					cc := x.Common()
+					if cc.IsInvoke() && cc.Method.Name() == "Close" {
+						if r, ok := loadedField(cc.Value); ok && r.is("Conn", "conn") && deferred {
+							closesConn = true
+						}
+					}
+					if b, ok := cc.Value.(*ssa.Builtin); ok && b.Name() == "delete" && deferred {
+						if r, ok := loadedField(cc.Args[0]); ok && r.is("Server", "conns") {
+							unregisters = true
+						}
+					}
+				case *ssa.MapUpdate:
+					if r, ok := loadedField(x.Map); ok && r.is("Server", "conns") && !deferred {
+						registers = true
 					}
 				}
-				if b, ok := cc.Value.(*ssa.Builtin); ok && b.Name() == "delete" && deferred {
-					if r, ok := loadedField(cc.Args[0]); ok && r.is("Server", "conns") {
-						unregisters = true
-					}
-				}
-			case *ssa.MapUpdate:
-				if r, ok := loadedField(x.Map); ok && r.is("Server", "conns") {
-					registers = true
-				}
-			}
-		})
+			})
+		}
 	}
+	scan(deferredRoots, true)
+	// the body region excludes what is only reachable through the deferred roots
+	scan(bodyRoots, false)
 	c.check(hasRecover(serve) && closesConn, "C06.b", "serve: recover + conn.Close deferred", serve.Pos(),
 		"serve defers a function that recovers and closes the network connection", "serve does not both recover and close the connection on every exit")
 	c.check(registers == unregisters && unregisters, "C06.b", "serve: conns insert paired with deferred delete", serve.Pos(),
@@ -824,4 +841,34 @@ func ruleFetchWriterClosed(c *Ctx, rule string) {
 			}
 		}
 	}
+}
+
+// staticReach: roots plus the module functions reachable from them through
+// static calls (not through defers of the roots' callers), up to depth levels.
+func staticReach(roots []*ssa.Function, depth int) map[*ssa.Function]bool {
+	out := map[*ssa.Function]bool{}
+	var rec func(f *ssa.Function, d int)
+	rec = func(f *ssa.Function, d int) {
+		if f == nil || out[f] || f.Blocks == nil {
+			return
+		}
+		out[f] = true
+		if d == 0 {
+			return
+		}
+		allInstrs(f, func(i ssa.Instruction) {
+			if c, ok := i.(ssa.CallInstruction); ok {
+				if cal := staticCallee(c); cal != nil && inModule(cal) {
+					rec(cal, d-1)
+				}
+				if mc, ok := c.Common().Value.(*ssa.MakeClosure); ok {
+					rec(mc.Fn.(*ssa.Function), d-1)
+				}
+			}
+		})
+	}
+	for _, r := range roots {
+		rec(r, depth)
+	}
+	return out
 }
